@@ -91,6 +91,9 @@ def handle (op : String) (j : Json) : Option Json :=
   | "rev.spec.plain" =>
     let h := histOfJson j
     some (obj [("holds", Json.bool (Spec.Rev.plainResolveOk h (getStrD j "ident") (getStrD j "result")))])
+  | "rev.spec.branchprefix" =>
+    let h := histOfJson j
+    some (obj [("holds", Json.bool (Spec.Rev.branchPrefixOk h (getStrD j "label") (getStrD j "ident") (getStrD j "result")))])
   | "rev.spec.inbranch" =>
     let h := histOfJson j
     match Spec.Rev.branchRev h (getStrD j "label") with
